@@ -76,3 +76,16 @@ Theorem C07_generated_results_untouched :
   forall f e, FlowOpModel.xfail e <> [] -> FlowOpModel.results f e = None.
 Proof. exact FlowOpProofs.results_untouched_on_failure. Qed.
 Print Assumptions C07_generated_results_untouched.
+
+(* nil means everything ran: a saturated execution (nothing more can run) of an acyclic job
+   graph in which no job failed has run every job of the directive, each returning nil *)
+From CffVerif Require FlowComplete FlowSaturated.
+
+Theorem C07_generated_nil_means_all_ran :
+  forall f sc, FlowOpProofs.unique_providers f ->
+  forall (rk : FlowOpModel.fid -> nat) e,
+    (forall x d, In d (FlowOpModel.jdeps f x) -> rk d < rk x) ->
+    FlowOpProofs.reach f sc e -> FlowSaturated.saturated f e -> FlowOpModel.xfail e = [] ->
+    FlowOpModel.complete f e = true.
+Proof. exact FlowSaturated.saturated_no_failure_complete. Qed.
+Print Assumptions C07_generated_nil_means_all_ran.
